@@ -610,7 +610,7 @@ func (b *builder) bridgeBlock(num uint64, evs []Ev, nLeaves int, fault string) {
 			add(b.stale) // contradicts the database, equals the index the tree had in memory before the reorg
 		}
 	}
-	if !ok && b.rng.Intn(2) == 0 { // events after the faulty one
+	if !ok && fault != "gap_stale" && b.rng.Intn(2) == 0 { // events after the faulty one (never after a regression input)
 		add(dbn + 1)
 	}
 	b.ops = append(b.ops, Op{K: "block", Num: num, Evs: evs})
